@@ -169,13 +169,28 @@ pub fn judge(j: &mut Judge, tampered: &[u8], what: &dyn Fn() -> String) -> Resul
     Ok(())
 }
 
-fn structural_edits(orig: &Value) -> Vec<(String, Value)> {
-    let mut out: Vec<(String, Value)> = Vec::new();
-    let mut push = |name: String, f: &dyn Fn(&mut Value)| {
+/// Enumerate the structural edits of a package lazily: `emit(name, edited)` is called for each
+/// (nothing is collected: packages can be 100 KiB). `touch(i, n)` says for which of the n orders
+/// the per-order edits are produced. Returns the number of edits, or the first error of `emit`.
+fn structural_edits(
+    orig: &Value,
+    touch: &dyn Fn(usize, usize) -> bool,
+    emit: &mut dyn FnMut(&str, &Value) -> Result<(), String>,
+) -> Result<usize, String> {
+    let count = std::cell::Cell::new(0usize);
+    let err: std::cell::RefCell<Option<String>> = std::cell::RefCell::new(None);
+    let emit = std::cell::RefCell::new(emit);
+    let push = |name: String, f: &dyn Fn(&mut Value)| {
+        if err.borrow().is_some() {
+            return;
+        }
         let mut v = orig.clone();
         f(&mut v);
         if v != *orig {
-            out.push((name, v));
+            count.set(count.get() + 1);
+            if let Err(e) = (emit.borrow_mut())(&name, &v) {
+                *err.borrow_mut() = Some(e);
+            }
         }
     };
     // version
@@ -215,9 +230,26 @@ fn structural_edits(orig: &Value) -> Vec<(String, Value)> {
             });
         }
     }
-    // orders
+    // orders: splice a well-formed foreign order in at every position, with the stored figures
+    // left alone and with the stored count / aggregates adjusted to match
+    let donor = json!({"Standard": {"id": "00000000-0000-0000-0000-0000000d0a0e", "price": orig["snapshot"]["price"].clone(), "quantity": 7, "side": "BUY", "timestamp": 5, "time_in_force": "GTC", "extra_fields": null}});
+    let n0 = orig["snapshot"]["orders"].as_array().map(|a| a.len()).unwrap_or(0);
+    for i in (0..=n0).filter(|i| touch(*i, n0 + 1)) {
+        let d = donor.clone();
+        push(format!("insert a foreign order at position {i}"), &|v| {
+            v["snapshot"]["orders"].as_array_mut().unwrap().insert(i, d.clone());
+        });
+        let d = donor.clone();
+        push(format!("insert a foreign order at position {i} and adjust count / visible"), &|v| {
+            v["snapshot"]["orders"].as_array_mut().unwrap().insert(i, d.clone());
+            let c = v["snapshot"]["order_count"].as_u64().unwrap_or(0);
+            v["snapshot"]["order_count"] = json!(c + 1);
+            let q = v["snapshot"]["visible_quantity"].as_u64().unwrap_or(0);
+            v["snapshot"]["visible_quantity"] = json!(q.wrapping_add(7));
+        });
+    }
     let n = orig["snapshot"]["orders"].as_array().map(|a| a.len()).unwrap_or(0);
-    for i in 0..n {
+    for i in (0..n).filter(|i| touch(*i, n)) {
         push(format!("drop order {i}"), &|v| {
             v["snapshot"]["orders"].as_array_mut().unwrap().remove(i);
         });
@@ -294,7 +326,10 @@ fn structural_edits(orig: &Value) -> Vec<(String, Value)> {
             }
         }
     }
-    out
+    match err.into_inner() {
+        Some(e) => Err(e),
+        None => Ok(count.get()),
+    }
 }
 
 pub fn eval(c: &Content, st: &mut Stats, deep: bool) -> Result<(), String> {
@@ -323,10 +358,19 @@ pub fn eval(c: &Content, st: &mut Stats, deep: bool) -> Result<(), String> {
     };
     let ob = original.as_bytes();
     let n = ob.len();
+    st.count(&format!("package_size/{:>4}KiB+", (n / 16384) * 16));
     let h = hash_of(c);
     // large packages: every offset near a 512-byte boundary (block-buffered hashing / IO) and at
     // both ends, not every offset
-    let wanted = |i: usize| !large || i < 200 || i + 200 >= n || i % 512 < 48 || i % 512 >= 512 - 48;
+    let huge = c.book.orders.len() > 200;
+    let wanted = |i: usize| {
+        if huge {
+            // tens of KiB: offsets within 64 bytes of every 4096-byte boundary and at both ends
+            i < 64 || i + 64 >= n || i % 8192 < 40 || i % 8192 >= 8192 - 40
+        } else {
+            !large || i < 200 || i + 200 >= n || i % 512 < 48 || i % 512 >= 512 - 48
+        }
+    };
     // every proper prefix (torn write)
     for k in (0..n).filter(|k| wanted(*k)) {
         judge(&mut j, &ob[..k], &|| format!("truncation to {k} of {n} bytes"))?;
@@ -366,29 +410,35 @@ pub fn eval(c: &Content, st: &mut Stats, deep: bool) -> Result<(), String> {
         }
     }
     st.add("faults/insertion_offsets", n as u64 + 1);
-    // structural edits
-    let edits = structural_edits(&original_value);
-    st.add("faults/structural", edits.len() as u64);
-    for (name, v) in &edits {
-        let t = serde_json::to_string(v).unwrap();
-        judge(&mut j, t.as_bytes(), &|| format!("structural edit [{name}]"))?;
-    }
+    // structural edits (for large packages the per-order edits go to a spread of 8 orders)
+    let touch = |i: usize, m: usize| !large || i < 2 || i + 2 >= m || (m >= 8 && i % (m / 4).max(1) == 0);
+    let n_edits = {
+        let j = std::cell::RefCell::new(&mut j);
+        let mut k = 0usize;
+        structural_edits(&original_value, &touch, &mut |name, v| {
+            let t = serde_json::to_string(v).unwrap();
+            judge(&mut j.borrow_mut(), t.as_bytes(), &|| format!("structural edit [{name}]"))?;
+            // two cooperating faults: the same edit with the checksum emptied / shortened
+            k += 1;
+            if k <= 40 {
+                for ck in [false, true] {
+                    let mut v2 = v.clone();
+                    let c0 = original_value["checksum"].as_str().unwrap_or("");
+                    v2["checksum"] = if ck { json!(c0[..c0.len().saturating_sub(1)].to_string()) } else { json!("") };
+                    let t = serde_json::to_string(&v2).unwrap();
+                    judge(&mut j.borrow_mut(), t.as_bytes(), &|| format!("structural edit [{name}] + checksum shortened"))?;
+                }
+            }
+            Ok(())
+        })?
+    };
+    st.add("faults/structural", n_edits as u64);
     // pairs of faults
     for (a, b) in &c.pairs {
         if let Some(v1) = single_fault(ob, a.0, a.1, a.2) {
             if let Some(v2) = single_fault(&v1, b.0, b.1, b.2) {
                 judge(&mut j, &v2, &|| format!("fault pair {:?} then {:?}", a, b))?;
             }
-        }
-    }
-    // structural edit + checksum fault (two cooperating faults)
-    for (name, v) in edits.iter().take(40) {
-        for ck in ["", "0"] {
-            let mut v2 = v.clone();
-            let c0 = original_value["checksum"].as_str().unwrap_or("");
-            v2["checksum"] = if ck.is_empty() { json!("") } else { json!(c0[..c0.len() - 1].to_string()) };
-            let t = serde_json::to_string(&v2).unwrap();
-            judge(&mut j, t.as_bytes(), &|| format!("structural edit [{name}] + checksum shortened"))?;
         }
     }
     st.add("faults/pairs", c.pairs.len() as u64 + 80);
@@ -434,7 +484,7 @@ pub fn run(cfg: &RunCfg) -> Report {
     let mut rep = Report::new(
         "C09",
         "fault_enumeration",
-        "level contents (0-6 orders of all types, both id formats, boundary values, optionally after a match) serialized with snapshot_to_json; for each content (0-6 orders) EVERY proper prefix, EVERY single-byte substitution (bit flip, digit +-1, palette) and deletion at every offset, insertion of each palette byte at every offset, a catalogue of structural edits on the parsed JSON (version, checksum case/length, price, each aggregate, drop/duplicate/swap orders, every field of every order, type tag), pairs of faults and structural-edit+checksum-shortening pairs; plus a few large packages (30-64 orders, 8-16 KiB) with the same faults at every offset within 48 bytes of a 512-byte boundary and at both ends; each tampered text goes through from_snapshot_json, from_snapshot_package(serde_json::from_str) and from_json->validate/into_snapshot. Oracle: Err, or Ok only if the tampered package re-serializes byte-identically to the original (i.e. it is semantically the same package) and the restored content equals the snapshotted level. Non-trivial = fault after which the text still parses as JSON but to a different value (content, version or checksum changed); counted per (content, fault).",
+        "level contents (0-6 orders of all types, both id formats, boundary values, optionally after a match) serialized with snapshot_to_json; for each content (0-6 orders) EVERY proper prefix, EVERY single-byte substitution (bit flip, digit +-1, palette) and deletion at every offset, insertion of each palette byte at every offset, a catalogue of structural edits on the parsed JSON (version, checksum case/length, price, each aggregate, drop/duplicate/swap orders, every field of every order, type tag), pairs of faults and structural-edit+checksum-shortening pairs; plus a few large packages (30-64 orders, 8-16 KiB; and 520-780 orders, 100-150 KiB) with the same faults at every offset near a 512-byte (8192-byte) boundary and at both ends; each tampered text goes through from_snapshot_json, from_snapshot_package(serde_json::from_str) and from_json->validate/into_snapshot. Oracle: Err, or Ok only if the tampered package re-serializes byte-identically to the original (i.e. it is semantically the same package) and the restored content equals the snapshotted level. Non-trivial = fault after which the text still parses as JSON but to a different value (content, version or checksum changed); counted per (content, fault).",
     );
     rep.assumptions = vec![
         "SHA-256 collision resistance".into(),
@@ -458,6 +508,14 @@ pub fn run(cfg: &RunCfg) -> Report {
     let contents = rep.stats.evaluations;
     rep.extra.insert("contents".into(), json!(contents));
     rep.stats.evaluations = rep.stats.hist.get("restores").copied().unwrap_or(0).max(contents);
+    if !rep.failed() {
+        // and very large ones (400-520 orders: 70-100 KiB, beyond a 64 KiB block)
+        let n = cfg.cases_few(12, 160);
+        rep.absorb(
+            "tamper",
+            explore(cfg, "C09-huge", n, move || (700usize..=780).prop_flat_map(|n| content(n, 4)).prop_filter("huge", |c| c.book.orders.len() >= 520).boxed(), move |c: &Content, st| eval(c, st, deep)),
+        );
+    }
     rep.exhaustive = Some(false);
     rep.extra.insert(
         "exhaustive_part".into(),
